@@ -48,18 +48,18 @@ Definition cfg_plain (fx : bool) : config :=
 Example C19_before_fix_refuted :
   exists s, let (r, w') := run (dial 8 (cfg_plain false)) (world0 s) in
             is_ok r = false /\ opened (w_conn w') = true /\ copen (w_conn w') = true.
-Proof. exists (srv0 [DOk; DReply 550 false; DReply 550 false] None [] [] HsOk). vm_compute. auto. Qed.
+Proof. exists (srv0 [DOk; DReply 550 TxPlain; DReply 550 TxPlain] None [] [] HsOk). vm_compute. auto. Qed.
 
 Example C19_quit_before_fix_refuted :
   exists s, let (r, w') := run (dial_and_send 8 (cfg_plain false) [1%nat]) (world0 s) in
             is_ok (fst r) = false /\ copen (w_conn w') = true.
 Proof.
-  exists (srv0 [DOk; DOk; DOk; DOk; DOk; DOk; DOk; DOk; DOk; DReply 500 false; DReply 500 false] None [] [] HsOk).
+  exists (srv0 [DOk; DOk; DOk; DOk; DOk; DOk; DOk; DOk; DOk; DReply 500 TxPlain; DReply 500 TxPlain] None [] [] HsOk).
   vm_compute. auto.
 Qed.
 
 (* non-vacuity: the hypotheses are satisfiable and both outcomes occur *)
-Example C19_example_error : let (r, w') := run (dial 8 (cfg_plain true)) (world0 (srv0 [DOk; DReply 550 false; DReply 550 false] None [] [] HsOk)) in
+Example C19_example_error : let (r, w') := run (dial 8 (cfg_plain true)) (world0 (srv0 [DOk; DReply 550 TxPlain; DReply 550 TxPlain] None [] [] HsOk)) in
   is_ok r = false /\ opened (w_conn w') = true /\ copen (w_conn w') = false /\ closes w' = 1%nat.
 Proof. vm_compute. auto. Qed.
 
